@@ -274,7 +274,7 @@ def run_unit(unit, workdir, seed=None, rlimit=None, do_canary=True, keep=None):
             open(cpath, "w").write(ctext)
             return run_verus(cpath, workdir, seed=seed, rlimit=rlimit), cnames
         tc = time.time()
-        with ThreadPoolExecutor(max_workers=4) as ex:
+        with ThreadPoolExecutor(max_workers=8) as ex:
             outs = list(ex.map(one, enumerate(variants)))
         total, failed, bad = 0, 0, []
         for cr, cnames in outs:
@@ -282,12 +282,15 @@ def run_unit(unit, workdir, seed=None, rlimit=None, do_canary=True, keep=None):
             if cvr.get("encountered-vir-error") or cvr.get("verified", 0) + cvr.get("errors", 0) == 0:
                 raise Undecided("unit %s: canary text does not compile: %s" % (unit, cr["stderr"][-2000:]))
             cbd = breakdown(cr["res"])
-            nfail = len([f for f in cbd if f.get("mode:") in ("exec", "proof") and not f.get("success")])
-            total += len(cnames); failed += nfail
-            if nfail != len(cnames):
-                failed_names = set(f["function"].split("::")[-1] for f in cbd if not f.get("success"))
-                surv = [nm for nm in cnames if nm.split("::")[-1] not in failed_names]
-                bad += surv or ["(count mismatch: %d canaries, %d failures)" % (len(cnames), nfail)]
+            from collections import Counter
+            failed_ct = Counter(f["function"].split("::")[-1] for f in cbd if f.get("mode:") in ("exec", "proof") and not f.get("success"))
+            want_ct = Counter(nm.split("::")[-1] for nm in cnames)
+            total += len(cnames)
+            for nm, c in want_ct.items():
+                got = min(c, failed_ct.get(nm, 0))
+                failed += got
+                if got < c:
+                    bad += [x for x in cnames if x.split("::")[-1] == nm][: c - got]
         allowed = set(u.get("canary_exempt", []))
         bad = [x for x in bad if x not in allowed]
         ur.canary = dict(functions=total, failed_as_expected=failed, variants=len(variants), survivors=bad, wall=round(time.time() - tc, 2))
